@@ -176,9 +176,72 @@ def _diff(snap_a, snap_b, skip=()):
     return [n for n in names if n not in skip and (n not in snap_a or n not in snap_b or not psame(snap_a[n], snap_b[n]))]
 
 
+# --------------------------------------------------------------------------------------------------
+# the App under test = stock App + one small plugin that uses the settings API only plugins use: new settings with
+# oldNames (expired / never expiring / expiring in the future, in different orders), an added Option and Default
+# overrides of framework and built-in-plugin settings.  The expectations below are this module's own constants.
+LONG_AGO = "2000-01-01"
+FAR_FUTURE = "9999-12-31"
+PLUGIN_DEFAULTS = {  # Default(value, settingName) contributed by the plugin: the default every Settings() must report
+    "burnSteps": 3,               # framework setting (exists when the Default arrives)
+    "outers": 50,                 # setting of the built-in neutronics plugin (Default arrives first and is cached)
+    "outputFileExtension": "png",  # option list
+    "buGroups": [5, 15],          # container
+    "db": False,                  # falsy new default
+    "targetK": 1.0,
+    "vpOptSetting": "two",        # default override of the plugin's own setting
+}
+PLUGIN_SETTINGS = {  # name -> (default as defined, oldNames)
+    "vpIntSetting": (5, [("vpIntExpired", LONG_AGO), ("vpIntOld", None), ("vpIntFuture", FAR_FUTURE)]),
+    "vpStrSetting": ("alpha", [("vpStrOld", None), ("vpStrExpired", LONG_AGO), ("vpStrOld2", None)]),
+    "vpListSetting": (["a"], [("vpListFuture", FAR_FUTURE), ("vpListExpired", LONG_AGO)]),
+    "vpFloatSetting": (0.5, [("vpFloatExpired", LONG_AGO), ("vpFloatFuture", FAR_FUTURE), ("vpFloatOld", None)]),
+    "vpBoolSetting": (False, []),
+    "vpDictSetting": ({}, [("vpDictExpired", LONG_AGO), ("vpDictExpired2", LONG_AGO), ("vpDictOld", None)]),
+    "vpOptSetting": ("one", [("vpOptOld", None)]),
+}
+_PLUGIN = []
+
+
+def _ensure_plugin():
+    """Register the test plugin on the App of this (C17-only) worker process, once."""
+    if _PLUGIN:
+        return
+    import voluptuous as vol
+
+    from armi import getApp, plugins
+    from armi.settings import setting
+
+    D = datetime.date.fromisoformat
+
+    def olds(name):
+        return [(o, None if d is None else D(d)) for o, d in PLUGIN_SETTINGS[name][1]]
+
+    class VpC17SettingsPlugin(plugins.ArmiPlugin):
+        @staticmethod
+        @plugins.HOOKIMPL
+        def defineSettings():
+            mk = lambda name, **kw: setting.Setting(name, default=copy.deepcopy(PLUGIN_SETTINGS[name][0]),  # noqa: E731
+                                                    description="C17 verification plugin setting " + name, oldNames=olds(name), **kw)
+            return [
+                mk("vpIntSetting", schema=vol.All(vol.Coerce(int), vol.Range(min=0))),
+                mk("vpStrSetting"),
+                mk("vpListSetting"),
+                mk("vpFloatSetting", schema=vol.All(vol.Coerce(float), vol.Range(min=0, max=1))),
+                mk("vpBoolSetting"),
+                mk("vpDictSetting"),
+                mk("vpOptSetting", options=["one", "two", "three"], enforcedOptions=True),
+                setting.Option("four", "vpOptSetting"),
+            ] + [setting.Default(copy.deepcopy(v), n) for n, v in sorted(PLUGIN_DEFAULTS.items())]
+
+    getApp().pluginManager.register(VpC17SettingsPlugin)
+    _PLUGIN.append(VpC17SettingsPlugin)
+
+
 def _fresh():
     from armi.settings import caseSettings
 
+    _ensure_plugin()
     return caseSettings.Settings()
 
 
@@ -281,11 +344,11 @@ def catalogue():
             spec = dict(spec, suggested=[o for o in s.options if isinstance(o, str)])
         cat[name] = {
             "spec": spec,
-            "default": copy.deepcopy(s.default),
-            "oldNames": [(o, None if d is None else d.isoformat()) for o, d in s.oldNames],
+            "default": copy.deepcopy(PLUGIN_DEFAULTS[name]) if name in PLUGIN_DEFAULTS else copy.deepcopy(s.default),
+            "oldNames": list(PLUGIN_SETTINGS[name][1]) if name in PLUGIN_SETTINGS else [(o, None if d is None else d.isoformat()) for o, d in s.oldNames],
             "container": isinstance(s.default, (list, dict)) or spec["t"] in ("xs", "tight", "cycles", "list", "anylist", "anydict"),
-            "defaultOk": _try_schema(s, s.default)[0],
-            "pdefault": plain(s.default),
+            "defaultOk": _try_schema(s, PLUGIN_DEFAULTS.get(name, s.default))[0],
+            "pdefault": plain(PLUGIN_DEFAULTS.get(name, s.default)),
         }
     _CAT = cat
     return cat
@@ -436,6 +499,8 @@ NUMERIC_TABLE = {
     "xsBucklingConvergence": {"type": "float"},
     "xsEigenvalueConvergence": {"type": "float"},
     "xsScatteringOrder": {"type": "int"},
+    "vpIntSetting": dict(_R0, type="int"),
+    "vpFloatSetting": dict(_R01, type="float"),
 }
 
 
@@ -980,6 +1045,14 @@ def defaults_execute(case):
     cs = _fresh()
     ref = dict(_fresh().items())
     s = ref[name]
+    if name in PLUGIN_DEFAULTS or name in PLUGIN_SETTINGS:
+        out.label("plugin-default" if name in PLUGIN_DEFAULTS else "plugin-setting")
+        want = cat[name]["pdefault"]  # this module's own constant, not what armi reports
+        live0 = dict(cs.items())[name]
+        out.check(psame(plain(s.default), want) and psame(plain(live0.value), want) and live0.isDefault() and not live0.offDefault,
+                  "defaults/plugin-default-not-the-default",
+                  lambda: "setting %s: the plugin contributes the default %r; a new Settings() reports default %r, value %r, offDefault=%r"
+                  % (name, want, s.default, live0.value, live0.offDefault))
     ok, exp = _try_schema(s, s.default)
     if out.check(ok, SIG_DEFAULT, lambda: "setting %s: its default %r is rejected by its own schema (%s)" % (name, s.default, exp)):
         out.check(same(exp, s.default), "defaults/default-not-fixed-point-of-schema",
@@ -1452,8 +1525,6 @@ def handwritten_execute(case):
 
 _REN_CANDIDATES = [7, 0.5, "abc d", True, False, 3, 2.5, "x", [1, 2], ["a"], {"a": "b"}, 0, 1, ""]
 _REN_BAD = ["not a number", -5, None, [1], {"a": 1}]
-FAR_FUTURE = "9999-12-31"
-LONG_AGO = "2000-01-01"
 
 
 def renames_enum(tier):
@@ -1534,7 +1605,14 @@ def renames_execute(case):
                 raised = exc
             got = snapshot(cs)
             out.nontrivial = True
-            if ok:
+            expired = case["expiry"] is not None and case["expiry"] <= datetime.date.today().isoformat()
+            if expired:
+                out.label("old-name:expired")
+                out.check(raised is None and psame(got[new], before[new]) and reader is not None and old in reader.invalidSettings,
+                          "renames/expired-old-name-still-applied",
+                          lambda: "file has %s: %r (old name of %s, expired %s): %s = %r, raised=%r, reported invalid: %r"
+                          % (old, pv, new, case["expiry"], new, got[new], raised, sorted(reader.invalidSettings) if reader else None))
+            elif ok:
                 out.label("value:valid")
                 landed = raised is None and psame(got[new], plain(exp)) and old not in reader.invalidSettings
                 out.check(landed, SIG_RENAME,
@@ -1950,8 +2028,10 @@ def numeric_execute(case):
 
 PARTS = [
     Part("defaults", defaults_execute, enumerate=defaults_enum, exhaustive=True, procs={"quick": 1, "thorough": 1},
-         rule="one case per setting the configured App defines (framework + built-in plugins): the default is admitted by the "
-              "setting's own schema, is a fixed point of it, and re-assigning it leaves the setting at default",
+         rule="one case per setting the App under test defines (framework + built-in plugins + the C17 test plugin: 7 new settings with "
+              "expired / never-expiring / future old names, an added Option, Default overrides of 7 settings): the default is admitted by the "
+              "setting's own schema, is a fixed point of it, re-assigning it leaves the setting at default; a plugin-contributed Default is "
+              "the reported default and value of a new Settings()",
          bound=lambda t: "all settings of the configured App"),
     Part("each_setting", each_execute, enumerate=each_enum, exhaustive=True, procs={"quick": 4, "thorough": 8},
          rule="one case per setting of the configured App: up to 8 (thorough 40) distinct schema-admitted values from a fixed pool (YAML-hostile "
@@ -1980,13 +2060,13 @@ PARTS = [
               "oracle after every step: schema(v) on an independent Setting copy raises <=> assignment raises, stored == schema(v), a refused "
               "value leaves the previous one, no other setting moves, by-construction expectation of well-formed / near-miss values agrees "
               "with the schema; non-trivial = at least one accepted off-default value and one refused value"),
-    Part("documents", documents_execute, strategy=documents_strategy, budget={"quick": 2000, "thorough": 100000}, procs={"quick": 8, "thorough": 16},
+    Part("documents", documents_execute, strategy=documents_strategy, budget={"quick": 1900, "thorough": 100000}, procs={"quick": 8, "thorough": 16},
          rule="Hypothesis: 0-15 settings changed at once -> written by armi in short/medium/full style to a stream or a scratch file -> read "
               "by armi into a fresh Settings; oracle: every setting equal to the value before writing (versions modulo the armi entry), "
               "default settings still at default, the text parsed with ruamel alone has exactly the expected top-level keys per style "
               "(short: off-default + versions; medium: + listed user settings; full: all) and holds the stored values, writing does not "
               "change the settings, the re-written read-back holds the same data; non-trivial = >= 3 settings off default incl. one container"),
-    Part("handwritten", handwritten_execute, strategy=handwritten_strategy, budget={"quick": 2400, "thorough": 80000}, procs={"quick": 4, "thorough": 16},
+    Part("handwritten", handwritten_execute, strategy=handwritten_strategy, budget={"quick": 2300, "thorough": 80000}, procs={"quick": 4, "thorough": 16},
          rule="Hypothesis: settings texts produced without armi (ruamel block or flow style) from 0-8 entries (valid values, near misses, "
               "unknown keys, old names) read into a Settings that already holds 0-3 changes; oracle in file order with the values as an "
               "independent YAML parse sees them: first value its schema rejects => reading raises (InvalidSettingsFileError for files) and the "
